@@ -330,6 +330,10 @@ func lexFixtures() []lxSpec {
 			{"", []lxRule{L("A", a, push("M")), L("X", lit("x"))}},
 			{"M", []lxRule{L("B", b, push("$default")), L("C", c, pop)}},
 		}},
+		// a rule whose only mandatory part is a non-greedy repetition: one character per token
+		{name: "plus-nongreedy-alone", alpha: abc, maxIn: 5, modes: []lxMode{{"", []lxRule{
+			L("LETTER", lexTree{text: "[ab]+?", r: ab.r, size: 2, atom: true, post: true}), L("C", c), L("X", lit("x")),
+		}}}},
 		{name: "unicode", alpha: []string{"a", "é", "\xff", "z"}, maxIn: 4, modes: []lxMode{
 			{"", []lxRule{L("W", plusT(class("a-z", []rng{{'a', 'z'}}, false))), L("HI", plusT(class("\\u0080-\\U0010FFFF", []rng{{0x80, 0x10FFFF}}, false)))}},
 		}},
